@@ -71,6 +71,42 @@ func ruleEpochHistoryIsReadInFileOrder(c *eng.Ctx) {
 		}
 	}
 	c.Check(!fromMap, "the epoch history is read in the order of the file", c.P.Pos(fn.Pos()), "epochOffsets = append(epochOffsets, …) inside the loop that reads the checkpoint", "readLeaderEpochOffsets builds the history by ranging over a map: epochs that share a start offset come back in map iteration order, LastLeaderEpoch() is wrong after a restart, recovery re-assigns the newest epoch and the next open fails with a duplicate leader epoch")
+	// ... and every entry the file holds enters the list (round 12): a round of the reading loop that gets as far as the next
+	// round, or the loop's end, has appended its entry. Entries are not filtered for "progress": two epochs share a start
+	// offset when leadership changed twice with nothing published, and the later one decides where the earlier one ended.
+	var app *ssa.Call
+	eng.Instrs(fn, func(in ssa.Instruction) {
+		if call, isCall := in.(*ssa.Call); isCall && isBuiltinCall(call, "append") && app == nil {
+			if sl, isSl := call.Type().Underlying().(*types.Slice); isSl {
+				if pt, isP := sl.Elem().(*types.Pointer); isP {
+					if nm, isN := pt.Elem().(*types.Named); isN && nm.Obj().Name() == "epochOffset" {
+						app = call
+					}
+				}
+			}
+		}
+	})
+	if app == nil {
+		c.Unresolved("the append of an epochOffset in readLeaderEpochOffsets")
+		return
+	}
+	h := app.Block()
+	for h != nil && !isLoopHeader(h) {
+		h = h.Idom()
+	}
+	if h == nil {
+		c.Unresolved("the reading loop of readLeaderEpochOffsets")
+		return
+	}
+	var from []eng.Edge
+	for k, sc := range h.Succs {
+		if sc.Dominates(app.Block()) || sc == app.Block() {
+			from = append(from, eng.Edge{From: h, Succ: k})
+		}
+	}
+	q := &eng.PathQuery{Fn: fn, FromEdges: from, TargetEdge: func(e eng.Edge) bool { return e.To() == h }, CutInstr: func(x ssa.Instruction) bool { return x == ssa.Instruction(app) }}
+	w := q.Find()
+	c.Check(len(from) > 0 && w == nil, "every entry of the checkpoint file enters the history", c.Pos(app), "each round of the reading loop appends its entry before the next round", "readLeaderEpochOffsets can go on to the next entry without having appended the one it parsed (path "+w.String()+"): an epoch that began at the same offset as its predecessor (two elections with nothing published in between) is dropped at a restart, and the restarted leader answers the end of the earlier epoch one boundary too late — a returning leader of that epoch keeps an uncommitted message")
 }
 
 // ruleISROpsAlwaysApply (R07.9 / R06.2 extension): AddToISR and RemoveFromISR are applied from the Raft log on every server;
